@@ -229,8 +229,15 @@ def run_case(case):
         yi = ztr_monitor.enable_yield_injection(case['yseed'])
         y0 = ztr_monitor.COUNTERS.get('yield.lines', 0)
         try:
+            ee = {'ZTR_PROC_EVENTS': '1'}
+            if rng.random() < 0.5:
+                # the parent's stdout is slow: flushing it blocks for a
+                # few milliseconds now and then (children keep finishing
+                # meanwhile)
+                ee['ZTR_SLOW_FLUSH_MS'] = rng.choice(['3', '8', '20'])
+                C('slow_stdout_runs')
             wp = common.run_world(spec, plan, opts, root=root, markers=True,
-                                  env_extra={'ZTR_PROC_EVENTS': '1'})
+                                  env_extra=ee)
         finally:
             ztr_monitor.disable_yield_injection()
         C('yield_lines', ztr_monitor.COUNTERS.get('yield.lines', 0) - y0)
